@@ -1,6 +1,6 @@
 """C04: a rejected message leaves the group exactly as it was."""
 from corecheck import run_core
 def run(ctx):
-    return run_core(ctx, "C04", sim_cfg="SIM_full", mc_quick="MC_core_quick", mc_thorough="MC_core_mid",
-                    need_stats=("err_state_checks", "DeliverCommit:err", "Commit:err"),
+    return run_core(ctx, "C04", driver={}, sim_cfgs=["SIM_full", "SIM_psk", "SIM_props"], mc_quick="MC_core_quick", mc_thorough="MC_core_mid",
+                    need_stats=("err_state_checks", "DeliverCommit:err", "Commit:err", "DeliverCommit:err:conf-tag", "DeliverCommit:err:rule"),
                     invariants_note="every err:* branch of every action is UNCHANGED on the member (MlsGroup.tla); concrete: order-insensitive full-state comparison (verif_state hook: snapshot components, epoch secrets, repository queues) around every call that returns an error, after which the behaviour continues and the genuine messages must still be accepted as the model says")
